@@ -495,11 +495,21 @@ def _roundtrip(res):
     return pickle.loads(pickle.dumps(res))
 
 
+class PoolWouldHang(BaseException):
+    """What a real multiprocess pool does when a worker's exception pickles in the worker but cannot be REBUILT in
+    the parent: the result-handler thread dies and map() never returns.  A simulator cannot hang, so the condition
+    is raised as a BaseException (every finally still runs) and judged by the oracles as a liveness failure."""
+
+
 def _exc_roundtrip(e):
     try:
-        e2 = pickle.loads(pickle.dumps(e))
-        if e2.__cause__ is None:
-            e2.__cause__ = e.__cause__
-        return e2
-    except Exception:  # un-picklable exception: multiprocess wraps it
+        data = pickle.dumps(e)
+    except Exception:  # un-picklable exception: the worker side of multiprocess wraps it (MaybeEncodingError)
         return RuntimeError("MaybeEncodingError: %r" % (e,))
+    try:
+        e2 = pickle.loads(data)
+    except Exception as why:  # noqa: BLE001
+        raise PoolWouldHang("SIMPOOL worker exception %s pickles but cannot be rebuilt in the parent (%r): a real pool's result handler dies and map() never returns; original: %s" % (type(e).__name__, why, str(e)[:300])) from e
+    if e2.__cause__ is None:
+        e2.__cause__ = e.__cause__
+    return e2
